@@ -1058,7 +1058,9 @@ func (env *Env) applyUFunc(uf *UFunc, args []ast.Expr) TV {
 	for _, p := range uf.Params {
 		t := tenv.resolveType(p.Type)
 		if !isValueOnly(t, 0) {
-			sfail("ufunc %s: parameter %s must be value-only", uf.Name, p.Name)
+			// reference-typed arguments are allowed for uninterpreted functions: the function is then a
+			// function of the reference, i.e. the referenced object is assumed immutable (listed as assumption)
+			vc.assumed["ufunc "+uf.Name+" takes a reference: the referenced object is treated as immutable"] = true
 		}
 		ptypes = append(ptypes, t)
 		sorts = append(sorts, vc.sorts.sortOf(t))
